@@ -16,6 +16,7 @@ import WhVerif.Lemmas.C06AffineStrip
 import WhVerif.Lemmas.C06Merge
 import WhVerif.Lemmas.C06IndelCut
 import WhVerif.Lemmas.C06SecondIndelLeft
+import WhVerif.Lemmas.C06NoRefMulti
 /-!
 # C06 — allele detection never assigns the wrong allele to an error-free read: theorems about the model
 
@@ -1535,6 +1536,75 @@ example : usedBy true m2 100000 sup = true ∧ usedBy true m2 100000 m1 = true :
 /-- conflicting mates (impossible for error-free ones): the position is dropped, not decided -/
 example : mergeGroup true [m1, ⟨false, true, 15, 40, [(20, 1, 30)]⟩] 100000 = some [(10, 1, 30)] := by decide
 end NonVacuityMerge
+
+/-! ## Round 10: several variants in one no-reference call are independent
+
+`detectNoRef` hands ONE walker (reference/query position, anchoring flag, queue of variants in progress) from variant to
+variant.  With the repaired F16 (`f16 = true`; as-is an I operation of length `n` lets an insertion variant interfere with
+the variants up to `n` bases to its right, unless a variant with a non-empty REF at the insertion's position ends the
+queueing loop first — see the witness below) the variants do not influence each other: -/
+
+/-- `noref_multi_variant_independent` (walker level, any start state): for variants with strictly increasing normalised
+positions — SNVs, MNPs, insertions, deletions, multi-allelic, anything — over ANY CIGAR with operators 0–8, any query and
+qualities, if no single-variant walk fails, the joint walk does not fail and yields, in variant order, exactly what the
+walks that carry ONE variant alone yield: the state handed from one variant to the next is the state of a fresh walk. -/
+theorem noref_multi_variant_independent (fx : Fixes) (h16 : fx.f16 = true) (query : Seq) (quals : Option (List Nat))
+    (cigar : Cigar) (hops : ∀ p ∈ cigar, p.1 ≤ 8) (anch : Bool) (rp qp : Nat)
+    (vps : List VP) (hs : vps.Pairwise (fun a b => a.2.pos < b.2.pos))
+    (hV : ∀ vp ∈ vps, (noRefGo fx query quals anch rp qp [vp] [] cigar).2 = none) :
+    noRefGo fx query quals anch rp qp vps [] cigar =
+      (vps.flatMap (fun vp => (noRefGo fx query quals anch rp qp [vp] [] cigar).1), none) := by
+  have := noRefGo_independent fx h16 query quals cigar hops anch rp qp vps hs [] (by simp) (by simp) hV
+  simpa using this
+
+/-- … the same for a queue of variants already in progress (well-formed progress counters): queue entries and variants
+still to come are all independent of each other. -/
+theorem noref_multi_variant_independent_queue (fx : Fixes) (h16 : fx.f16 = true) (query : Seq) (quals : Option (List Nat))
+    (cigar : Cigar) (hops : ∀ p ∈ cigar, p.1 ≤ 8) (anch : Bool) (rp qp : Nat)
+    (vps : List VP) (hs : vps.Pairwise (fun a b => a.2.pos < b.2.pos))
+    (Q : List Entry) (hwf : ∀ e ∈ Q, EntryWF e)
+    (hQ : ∀ e ∈ Q, (noRefGo fx query quals anch rp qp [] [e] cigar).2 = none)
+    (hV : ∀ vp ∈ vps, (noRefGo fx query quals anch rp qp [vp] [] cigar).2 = none) :
+    noRefGo fx query quals anch rp qp vps Q cigar =
+      (Q.flatMap (fun e => (noRefGo fx query quals anch rp qp [] [e] cigar).1) ++
+       vps.flatMap (fun vp => (noRefGo fx query quals anch rp qp [vp] [] cigar).1), none) :=
+  noRefGo_independent fx h16 query quals cigar hops anch rp qp vps hs Q hwf hQ hV
+
+/-- … and for `_detect_alleles` as called by `_alignments_to_reads` (`vps` = the normalised, conflict-free variants from
+`first` on that do not lie before the alignment): the result is the concatenation of the single-variant results, so every
+variant gets the call `noref_snv_correct` / `noref_unshiftable_indel_correct` establish for it alone (their walker lemmas
+`noRefGo_snv`, `noRefGo_del_ref|alt`, `noRefGo_ins_ref|alt` hold for any variant index). -/
+theorem noref_multi_variant_independent_detect (fx : Fixes) (h16 : fx.f16 = true) (variants : List Variant) (first start : Nat)
+    (cigar : Cigar) (query : Seq) (quals : Option (List Nat)) (hops : ∀ p ∈ cigar, p.1 ≤ 8) (vps : List VP)
+    (hvps : vps = (((nonOverlapping (variants.map normalize)).filterMap
+      (fun id => ((variants.map normalize)[id]?).map (fun v => (id, v)))).drop first).dropWhile
+        (fun p => p.2.pos < start))
+    (hs : vps.Pairwise (fun a b => a.2.pos < b.2.pos))
+    (hV : ∀ vp ∈ vps, (noRefGo fx query quals false start 0 [vp] [] cigar).2 = none) :
+    detectNoRef fx variants first start cigar query quals =
+      (vps.flatMap (fun vp => (noRefGo fx query quals false start 0 [vp] [] cigar).1), none) :=
+  detectNoRef_independent fx h16 variants first start cigar query quals hops vps hvps hs hV
+
+/-! ### non-vacuity (independence) -/
+section NonVacuityMulti
+/-- read `2S 6M 2D 3M 1I 4M` at 10 over an SNV at 12 (ALT), a deletion `GT>ε` at 16 (carried), an insertion `ε>A` at 21
+(carried) and an SNV at 23 (REF): four variants in one M/D/M/I/M chain, hypotheses by evaluation -/
+private def vpsEx : List VP :=
+  [(0, ⟨12, ['C'], [['T']]⟩), (1, ⟨16, ['G', 'T'], [[]]⟩), (2, ⟨21, [], [['A']]⟩), (3, ⟨23, ['G'], [['C']]⟩)]
+private def cigEx : Cigar := [(4, 2), (0, 6), (2, 2), (0, 3), (1, 1), (0, 4)]
+private def qEx : Seq := "NNACTTACACGAACGT".toList
+example : vpsEx.Pairwise (fun a b => a.2.pos < b.2.pos) ∧ (∀ p ∈ cigEx, p.1 ≤ 8) ∧
+    (∀ vp ∈ vpsEx, (noRefGo Fixes.all qEx none false 10 0 [vp] [] cigEx).2 = none) := by decide
+example : noRefGo Fixes.all qEx none false 10 0 vpsEx [] cigEx = ([(0, 1, 30), (1, 1, 30), (2, 1, 30), (3, 0, 30)], none) := by
+  rw [noref_multi_variant_independent Fixes.all rfl qEx none cigEx (by decide) false 10 0 vpsEx (by decide) (by decide)]
+  decide
+/-- `f16` is needed: as-is an I operation of length 3 at 20 "sees" the insertion variant at 21 when that variant is walked
+alone (and calls ALT from the inserted bases), but not in the joint walk, where the SNV at 20 ends the queueing loop -/
+example : (noRefGo Fixes.asIs "ACGTAGTGACGT".toList none false 15 0 [(0, ⟨20, ['A'], [['C']]⟩), (1, ⟨21, [], [['T']]⟩)] []
+      [(0, 5), (1, 3), (0, 4)]).1 ≠
+    ([(0, ⟨20, ['A'], [['C']]⟩), (1, ⟨21, [], [['T']]⟩)] : List VP).flatMap (fun vp =>
+      (noRefGo Fixes.asIs "ACGTAGTGACGT".toList none false 15 0 [vp] [] [(0, 5), (1, 3), (0, 4)]).1) := by decide
+end NonVacuityMulti
 
 /-! ## Round 10: a second deletion / insertion of the read's haplotype entirely inside the LEFT half of the window
 (mirror of `window_is_padded_allele_second_indel`) -/
